@@ -38,6 +38,20 @@ enum Item {
     Unspecified(&'static str),
 }
 
+thread_local! {
+    static LENIENT_ZEROS: std::cell::Cell<bool> = const { std::cell::Cell::new(false) };
+}
+
+/// The numeric reading of an expression whose numbers may carry leading zeros (`07`, `005`).  Whether such an
+/// expression is accepted is not settled by the documentation; but *if* it is accepted it can only denote the sets
+/// its numbers denote (`0-07` is every day of the week, not Sunday alone).
+pub fn parse_lenient(expr: &str) -> Spec {
+    LENIENT_ZEROS.with(|c| c.set(true));
+    let r = parse(expr);
+    LENIENT_ZEROS.with(|c| c.set(false));
+    r
+}
+
 fn parse_number(s: &str) -> Result<u32, Item> {
     if s.is_empty() {
         return Err(Item::Reject("empty number"));
@@ -46,7 +60,14 @@ fn parse_number(s: &str) -> Result<u32, Item> {
         return Err(Item::Reject("stray character"));
     }
     if s.len() > 1 && s.starts_with('0') {
-        return Err(Item::Unspecified("leading zero"));
+        if !LENIENT_ZEROS.with(|c| c.get()) {
+            return Err(Item::Unspecified("leading zero"));
+        }
+        let t = s.trim_start_matches('0');
+        if t.len() > 4 {
+            return Err(Item::Reject("value outside the range"));
+        }
+        return Ok(if t.is_empty() { 0 } else { t.parse().unwrap() });
     }
     if s.len() > 4 {
         return Err(Item::Reject("value outside the range"));
